@@ -332,11 +332,22 @@ def np_hooks(extra=None):
         if isinstance(x, Sc):
             return Sc(Poly.sym(Fn("sqrt", x.r)))
         return Sym(("sqrt", origin_of(x)))
+    def isclose(a, b, *r, **k):
+        """approximate equality: true for equal values and for distinct values close enough - for two numbers computed, for symbolic
+        values equal if they are the same expression and otherwise NOT DECIDED (explored both ways)"""
+        if isinstance(a, (int, float)) and isinstance(b, (int, float)) and not r and not k:
+            return abs(a - b) <= 1e-8 + 1e-5 * abs(b)
+        sa_, sb_ = Sc.lift(a), Sc.lift(b)
+        if sa_ is not None and sb_ is not None and sa_ == sb_:
+            return True
+        from .models import Undecided
+        return Undecided("isclose(%r, %r) [true also for some UNEQUAL values]" % (origin_of(a), origin_of(b)))
     ext = {
         "numpy.array": array, "numpy.asarray": array, "numpy.concatenate": concatenate, "numpy.sqrt": sqrt,
         "numpy.linspace": lambda a, b, n, *r, **k: Sym(("linspace", origin_of(a), origin_of(b), origin_of(n))),
         "numpy.meshgrid": lambda *xs, **k: tuple(Sym(("meshgrid", i, origin_of(xs), k.get("indexing", "xy"))) for i in range(len(xs))),
         "numpy.isnan": lambda x: Sym(("isnan", origin_of(x))),
+        "numpy.isclose": isclose, "math.isclose": isclose,
         "numpy.broadcast_to": lambda x, shape, *a, **k: Sym(("broadcast", origin_of(x))),
         "numpy.zeros_like": lambda x, *a, **k: Sym(("zeros_like", origin_of(x))),
         "numpy.ma.masked_where": lambda m, d, **k: Sym(("masked", origin_of(m), origin_of(d))),
